@@ -134,7 +134,10 @@ def run_check(prop, name, tier, meta, dst):
     try:
         t0 = time.time()
         env = dict(ENV, VERIF_REPLAYS_DIR="/verif/.work/seed-replays", VERIF_EVIDENCE_DIR="/verif/.work/seed-evidence")
-        p = subprocess.run(["/verif/check", prop, tier], cwd="/verif", env=env, stdout=subprocess.PIPE, stderr=subprocess.STDOUT)
+        # /tmp/verif_snap (a worktree of the committed /verif), when present, is what a "first run" is judged with,
+        # so that the checks can be edited while a batch is running
+        cdir = "/tmp/verif_snap" if os.path.isdir("/tmp/verif_snap/tools") else "/verif"
+        p = subprocess.run([cdir + "/check", prop, tier], cwd=cdir, env=env, stdout=subprocess.PIPE, stderr=subprocess.STDOUT)
         out = p.stdout.decode("utf-8", "replace")
         keys = sorted(set(l.split("key=")[1].split(" ")[0] for l in out.splitlines() if "failed: key=" in l))
         meta["check"] = {"cmd": "./check %s %s (patch applied to /repo, undone afterwards)" % (prop, tier), "rc": p.returncode, "finding_keys": keys, "wall_s": round(time.time() - t0, 1), "tail": out[-1500:]}
